@@ -13,9 +13,10 @@ open C25 (Map upd)
 def Aux (s s' : State) : Prop :=
   s'.margin = s.margin ∧ s'.recSeq = s.recSeq ∧ s'.hi = s.hi ∧ s'.lo = s.lo ∧ s'.best = s.best ∧
   s'.stored = s.stored ∧ s'.tds = s.tds ∧ s'.h2h = s.h2h ∧ s'.last = s.last ∧ s'.seqTab = s.seqTab ∧
-  s'.hashSeq = s.hashSeq ∧ s'.lastSeq = s.lastSeq ∧ s'.txIdx = s.txIdx ∧ s'.cache = s.cache ∧ s'.pool = s.pool
+  s'.hashSeq = s.hashSeq ∧ s'.lastSeq = s.lastSeq ∧ s'.txIdx = s.txIdx ∧ s'.cache = s.cache ∧
+  (s'.pool = s.pool ∧ ∀ x ∈ s'.index, x ∈ s.index)
 
-theorem Aux.refl (s : State) : Aux s s := ⟨rfl, rfl, rfl, rfl, rfl, rfl, rfl, rfl, rfl, rfl, rfl, rfl, rfl, rfl, rfl⟩
+theorem Aux.refl (s : State) : Aux s s := ⟨rfl, rfl, rfl, rfl, rfl, rfl, rfl, rfl, rfl, rfl, rfl, rfl, rfl, rfl, rfl, fun _ h => h⟩
 
 /-- every block the node holds (orphan pool, block store) satisfies `S` ("was delivered"), and
 the store is keyed by the block's own hash. -/
@@ -26,9 +27,11 @@ def Seen (S : Blk → Prop) (s : State) : Prop :=
 satisfying `A`. -/
 structure Pres (P : Params) (S : Blk → Prop) (A : Nat → Prop) (Q : State → Prop) : Prop where
   frame : ∀ s s', Q s → Aux s s' → Q s'
-  conn : ∀ s b s', Q s → Seen S s → S b → connectBlock P s b = (s', none) → Q s'
+  conn : ∀ s b s', Q s → Seen S s → S b → (s.stored b.id).isSome = true → connectBlock P s b = (s', none) → Q s'
   disc : ∀ s b s' r, Q s → Seen S s → s.stored b.id = some b → disconnectBlock P s b = (s', r) → Q s'
-  store : ∀ s b s', Q s → S b → storeBlock s b = some s' → Q s'
+  store : ∀ s b s' p, Q s → Seen S s → S b → lookup s.index b.parent = some p → b.height = p.height + 1 →
+    storeBlock s b = some s' → Q s'
+  addIdx : ∀ s b src, Q s → S b → Q (addIndex s b src)
   poolAdd : ∀ s t, Q s → A t → Q { s with pool := s.pool ++ [t] }
   poolDel : ∀ s h, Q s → Q { s with pool := s.pool.filter (fun p => P.key p != h) }
   restart : ∀ s, Q s → Q (restart P s)
@@ -42,16 +45,16 @@ theorem seen_aux {s s' : State} (h : Seen S s) (ha : Aux s s') (ho : ∀ o ∈ s
   ⟨ho, by rw [ha.2.2.2.2.2.1]; exact h.2⟩
 
 theorem aux_delNode (s : State) (id : Nat) : Aux s (delNode s id) :=
-  ⟨rfl, rfl, rfl, rfl, rfl, rfl, rfl, rfl, rfl, rfl, rfl, rfl, rfl, rfl, rfl⟩
+  ⟨rfl, rfl, rfl, rfl, rfl, rfl, rfl, rfl, rfl, rfl, rfl, rfl, rfl, rfl, rfl, fun _ h => (List.mem_filter.mp h).1⟩
 
 theorem aux_handleErrBlk (s : State) (id : Nat) (e : Err) : Aux s (handleErrBlk s id e) := by
   unfold handleErrBlk
   split
   · exact aux_delNode s id
   · split
-    · exact ⟨rfl, rfl, rfl, rfl, rfl, rfl, rfl, rfl, rfl, rfl, rfl, rfl, rfl, rfl, rfl⟩
+    · exact ⟨rfl, rfl, rfl, rfl, rfl, rfl, rfl, rfl, rfl, rfl, rfl, rfl, rfl, rfl, rfl, fun _ h => h⟩
     · exact aux_delNode s id
-  · exact ⟨rfl, rfl, rfl, rfl, rfl, rfl, rfl, rfl, rfl, rfl, rfl, rfl, rfl, rfl, rfl⟩
+  · exact ⟨rfl, rfl, rfl, rfl, rfl, rfl, rfl, rfl, rfl, rfl, rfl, rfl, rfl, rfl, rfl, fun _ h => h⟩
 
 theorem orphans_handleErrBlk (s : State) (id : Nat) (e : Err) : (handleErrBlk s id e).orphans = s.orphans := by
   unfold handleErrBlk
@@ -141,27 +144,47 @@ theorem seen_connect {s s' : State} {b : Blk} (hs : Seen S s) (hb : S b)
     · rw [if_pos hid] at hx; cases hx; exact ⟨hb, hid.symm⟩
     · rw [if_neg hid, h11] at hx; exact hs.2 id x hx
 
-theorem Pres.connAny (hP : Pres P S A Q) (s : State) (b : Blk) (hb : S b) (h : QS S Q s) :
+theorem Pres.connAny (hP : Pres P S A Q) (s : State) (b : Blk) (hb : S b)
+    (hst : (s.stored b.id).isSome = true) (h : QS S Q s) :
     QS S Q (connectBlock P s b).1 := by
   cases hc : connectBlock P s b with
   | mk s' r =>
     cases r with
-    | none => exact ⟨hP.conn s b s' h.1 h.2 hb hc, seen_connect h.2 hb hc⟩
+    | none => exact ⟨hP.conn s b s' h.1 h.2 hb hst hc, seen_connect h.2 hb hc⟩
     | some e =>
       have ha := connectBlock_err_aux hc
       exact ⟨hP.frame s s' h.1 ha.1, seen_aux h.2 ha.1 (by rw [ha.2]; exact h.2.1)⟩
 
-theorem Pres.runSteps_conn (hP : Pres P S A Q) : ∀ (l : List Blk) (s : State), (∀ b ∈ l, S b) →
+/-- `connectBlock` never forgets a stored block. -/
+theorem connectBlock_stored_mono (s : State) (b : Blk) (id : Nat) (h : (s.stored id).isSome = true) :
+    ((connectBlock P s b).1.stored id).isSome = true := by
+  cases hc : connectBlock P s b with
+  | mk s' r =>
+    cases r with
+    | some e => rw [(connectBlock_err_aux hc).1.2.2.2.2.2.1]; exact h
+    | none =>
+      obtain ⟨tip, rest, s1, ptd, _, _, _, hs1, _, rfl⟩ := connectBlock_ok hc
+      have h11 : s1.stored = s.stored := (saveSeq_frame hs1).2.2.2.2.2.2.2.2.2.2.1
+      simp only [upd, h11]
+      split
+      · rfl
+      · exact h
+
+theorem Pres.runSteps_conn (hP : Pres P S A Q) : ∀ (l : List Blk) (s : State),
+    (∀ b ∈ l, S b ∧ (s.stored b.id).isSome = true) →
     QS S Q s → QS S Q (runSteps (connectBlock P) s l).1 := by
   intro l
   induction l with
   | nil => intro s _ h; simpa [runSteps] using h
   | cons b bs ih =>
     intro s hl h
-    have h1 := hP.connAny s b (hl b (by simp)) h
+    have h1 := hP.connAny s b (hl b (by simp)).1 (hl b (by simp)).2 h
+    have hm := fun id hid => connectBlock_stored_mono (P := P) s b id hid
     simp only [runSteps]
     split
-    · rename_i s' hs'; rw [hs'] at h1; exact ih s' (fun x hx => hl x (by simp [hx])) h1
+    · rename_i s' hs'
+      rw [hs'] at h1 hm
+      exact ih s' (fun x hx => ⟨(hl x (by simp [hx])).1, hm x.id (hl x (by simp [hx])).2⟩) h1
     · rename_i s' e hs'; rw [hs'] at h1; exact h1
 
 theorem disconnectBlock_frame (s : State) (b : Blk) :
@@ -249,25 +272,37 @@ theorem Pres.reorganize (hP : Pres P S A Q) (s : State) (d a : List Blk) (h : QS
     split
     · rename_i s1 e heq; rw [heq] at h1; exact h1
     · rename_i s1 heq; rw [heq] at h1
-      exact hP.runSteps_conn as s1 (fun x hx => (loaded_stored h.2 ha x hx).1) h1
+      have hst : ∀ l (s0 : State), (runSteps (disconnectBlock P) s0 l).1.stored = s0.stored := by
+        intro l
+        induction l with
+        | nil => intro s0; simp [runSteps]
+        | cons d ds' ih =>
+          intro s0
+          have hf := (disconnectBlock_frame (P := P) s0 d).1
+          simp only [runSteps]
+          split
+          · rename_i s' hs'; rw [hs'] at hf; rw [ih s']; exact hf
+          · rename_i s' e hs'; rw [hs'] at hf; exact hf
+      have hs1 : s1.stored = s.stored := by have := hst ds s; rw [heq] at this; exact this
+      exact hP.runSteps_conn as s1 (fun x hx => ⟨(loaded_stored h.2 ha x hx).1, by
+        rw [hs1, (loaded_stored h.2 ha x hx).2]; rfl⟩) h1
   · exact h
 
 theorem aux_resetFin (s : State) (f : Option Blk) : Aux s (resetFin s f) ∧ (resetFin s f).orphans = s.orphans := by
   unfold resetFin
   split
   · split
-    · exact ⟨⟨rfl, rfl, rfl, rfl, rfl, rfl, rfl, rfl, rfl, rfl, rfl, rfl, rfl, rfl, rfl⟩, rfl⟩
+    · exact ⟨⟨rfl, rfl, rfl, rfl, rfl, rfl, rfl, rfl, rfl, rfl, rfl, rfl, rfl, rfl, rfl, fun _ h => h⟩, rfl⟩
     · exact ⟨Aux.refl s, rfl⟩
   · exact ⟨Aux.refl s, rfl⟩
 
-theorem aux_addIndex (s : State) (b : Blk) (src : Src) : Aux s (addIndex s b src) :=
-  ⟨rfl, rfl, rfl, rfl, rfl, rfl, rfl, rfl, rfl, rfl, rfl, rfl, rfl, rfl, rfl⟩
+theorem seen_addIndex {s : State} (h : Seen S s) (b : Blk) (src : Src) : Seen S (addIndex s b src) := h
 
 theorem aux_dropOrphan (s : State) (id : Nat) : Aux s (dropOrphan s id) :=
-  ⟨rfl, rfl, rfl, rfl, rfl, rfl, rfl, rfl, rfl, rfl, rfl, rfl, rfl, rfl, rfl⟩
+  ⟨rfl, rfl, rfl, rfl, rfl, rfl, rfl, rfl, rfl, rfl, rfl, rfl, rfl, rfl, rfl, fun _ h => h⟩
 
 theorem aux_addOrphan (s : State) (b : Blk) (src : Src) : Aux s (addOrphan s b src) :=
-  ⟨rfl, rfl, rfl, rfl, rfl, rfl, rfl, rfl, rfl, rfl, rfl, rfl, rfl, rfl, rfl⟩
+  ⟨rfl, rfl, rfl, rfl, rfl, rfl, rfl, rfl, rfl, rfl, rfl, rfl, rfl, rfl, rfl, fun _ h => h⟩
 
 theorem Pres.frameQS (hP : Pres P S A Q) {s s' : State} (h : QS S Q s) (ha : Aux s s')
     (ho : ∀ o ∈ s'.orphans, o ∈ s.orphans ∨ S o.1) : QS S Q s' :=
@@ -285,6 +320,8 @@ theorem Pres.unorphanQS (hP : Pres P S A Q) (s : State) (b : Blk) (h : QS S Q s)
 theorem Pres.reorgTo (hP : Pres P S A Q) (s : State) (b : Blk) (f : Option Blk) (h : QS S Q s) :
     QS S Q (reorgTo P s b f).1 := by
   unfold C27.reorgTo
+  split
+  · exact h
   have h1 : QS S Q (resetFin s f) :=
     hP.frameQS h (aux_resetFin s f).1 (fun _ ho => Or.inl (by rw [(aux_resetFin s f).2] at ho; exact ho))
   have h2 := hP.reorganize (resetFin s f) (getReorganizeNodes (resetFin s f) b f).1
@@ -292,13 +329,14 @@ theorem Pres.reorgTo (hP : Pres P S A Q) (s : State) (b : Blk) (f : Option Blk) 
   dsimp only
   split <;> (rename_i heq; rw [heq] at h2; exact h2)
 
-theorem Pres.connectBestChain (hP : Pres P S A Q) (s : State) (b : Blk) (hb : S b) (h : QS S Q s) :
+theorem Pres.connectBestChain (hP : Pres P S A Q) (s : State) (b : Blk) (hb : S b)
+    (hst : (s.stored b.id).isSome = true) (h : QS S Q s) :
     QS S Q (connectBestChain P s b).1 := by
   unfold C27.connectBestChain
   split
   · exact h
   · split
-    · have h1 := hP.connAny s b hb h
+    · have h1 := hP.connAny s b hb hst h
       split <;> (rename_i heq; rw [heq] at h1; exact h1)
     · split
       · exact h
@@ -332,9 +370,17 @@ theorem Pres.maybeAcceptBlock (hP : Pres P S A Q) (s : State) (b : Blk) (src : S
     · exact h
     · split
       · exact h
-      · rename_i s1 hs1
-        have h1 : QS S Q s1 := ⟨hP.store s b s1 h.1 hb hs1, storeBlock_seen h.2 hb hs1⟩
-        exact hP.connectBestChain _ b hb (hP.frameQS h1 (aux_addIndex s1 b src) (fun _ ho => Or.inl ho))
+      · rename_i p0 hp hh _ s1 hs1
+        have h1 : QS S Q s1 := ⟨hP.store s b s1 p0 h.1 h.2 hb hp (by simpa using hh) hs1, storeBlock_seen h.2 hb hs1⟩
+        have hst : ((addIndex s1 b src).stored b.id).isSome = true := by
+          show (s1.stored b.id).isSome = true
+          unfold storeBlock at hs1
+          split at hs1
+          · rename_i hsome; cases hs1; exact hsome
+          · split at hs1
+            · cases hs1
+            · cases hs1; simp [upd]
+        exact hP.connectBestChain _ b hb hst ⟨hP.addIdx s1 b src h1.1 hb, seen_addIndex h1.2 b src⟩
 
 theorem Pres.processOrphans (hP : Pres P S A Q) : ∀ (fuel : Nat) (l : List Nat) (s : State), QS S Q s →
     QS S Q (processOrphans P fuel l s).1 := by
